@@ -177,15 +177,15 @@ impl HetTable {
         let data_start = 12; // Extended header size
         let header_size = std::mem::size_of::<HetHeader>();
         let hash_table_start = data_start + header_size;
-        let hash_table_end = hash_table_start + header.hash_table_size as usize;
+        let hash_table_end = hash_table_start.saturating_add(header.hash_table_size as usize);
 
         let file_indices_start = hash_table_end;
         // The total_index_size in StormLib is actually the total size in bits of ALL indices
         // We need to calculate: (number_of_entries * index_size_bits) / 8
         let total_entries = header.hash_table_size as usize; // Number of hash entries = number of index entries
-        let total_index_bits = total_entries * header.index_size as usize;
+        let total_index_bits = total_entries.saturating_mul(header.index_size as usize);
         let file_indices_size = total_index_bits.div_ceil(8); // Convert bits to bytes
-        let file_indices_end = file_indices_start + file_indices_size;
+        let file_indices_end = file_indices_start.saturating_add(file_indices_size);
 
         log::debug!(
             "HET table layout: data_start={data_start}, header_size={header_size}, hash_table: {hash_table_start}..{hash_table_end}, indices: {file_indices_start}..{file_indices_end}, total_needed={file_indices_end}"
